@@ -134,6 +134,33 @@ class C03(Prop):
             obs["threads"] = [th for th, _ in threads]
         return obs
 
+    # ---- spec -> code: every pair of the comparators' small domain, transcription vs real function
+    def extra(self, ctx):
+        from .. import tlc
+        import numpy as np
+        hta.setup()
+        from hta.common import call_stack as old_cs
+        from hta.common import trace_call_stack as new_cs
+        pairs, _ = tlc.enumerate_cases("MC_Comparators", "MC_Comparators.cfg")
+        drift = []
+        for p in pairs:
+            x, y = p["x"], p["y"]
+            if x == y:
+                continue
+            arr = lambda e: np.array([e["id"], e["dur"], -1 if e["kind"] == "open" else 1, e["time"]])
+            ev = lambda e: old_cs.Event(e["id"], e["time"], e["dur"], 1 if e["kind"] == "open" else -1)
+            real_new = bool(new_cs._less_than(arr(x), arr(y)))
+            c = old_cs.compare_events(ev(x), ev(y))
+            real_old = -1 if c < 0 else 1 if c > 0 else 0
+            if real_new != bool(p["lessNew"]) or real_old != int(p["cmpOld"]):
+                drift.append((x, y, real_new, p["lessNew"], real_old, p["cmpOld"]))
+        ctx.replayed += len(pairs)
+        ctx.extra_cov["comparator_pairs_replayed"] = len(pairs)
+        ctx.extra_cov["comparator_transcription_drift"] = len(drift)
+        if drift:
+            print(f"SPEC-DRIFT C03: comparator transcriptions disagree with the code on {len(drift)} of {len(pairs)} endpoint pairs; first: {drift[0]}")
+            ctx.notes.append(f"SPEC-DRIFT: {len(drift)} comparator pairs differ between CallStack.tla and the code")
+
     def nontrivial(self, case, obs):
         for th in obs["threads"]:
             pts = []
